@@ -578,6 +578,7 @@ func checkC10(c *Check, p *Program) {
 		})
 	}
 	c.Floor("C10.K5", "blocking points in Tunnel methods", nBlock, 6)
+	checkNoLockCopies(c, p, "C10.K5", "knx", "Tunnel")
 
 	// K6
 	nSend := 0
